@@ -37,7 +37,7 @@ UNPROVEN = ['pixelate: the call wiring (pixel, then rescale by 1/oversample, ord
             '(pixelate_wiring); its values are compared with the rescale contract (scipy order-3 spline, unitary factor, order-1 mask) evaluated on the '
             'MODEL\'s pixel output at the grid of the C17 model (Gen.rescaleCoordY/X); the spline itself is trusted, no theorem about the values or the total',
             'smear(angle=None): the branch is regenerated and modelled (smearNone, compared with the implementation under a seeded global generator; '
-            'smear_none_is_smear_at_drawn_angle); that exactly one uniform variate of the global generator is consumed is oracle only',
+            'smear_none_is_smear_at_drawn_angle; non-negativity, preserved total and commutation with circular shifts carried over by smear_none_nonneg_total_roll); that exactly one uniform variate of the global generator is consumed is oracle only',
             'smear on even-sized axes: the deviation from the Hermitian-part convolution is bounded by the Nyquist row/column for the un-normalised and '
             'the renormalised output (smear_even_axis_deviation, smear_renormalised_deviation; at most the mean modulus of the image spectrum on those lines: smear_deviation_le_nyquist_lines; exact when the image has no content there: smear_exact_when_nyquist_free); no closed form of the output otherwise, and nothing says the bound is small for a given image',
             'an image whose blurred total underflows to zero without the image being zero (amplitudes below ~1e-154) is returned un-normalised by the guard: floating-point range, not modelled, not generated']
